@@ -8,8 +8,8 @@ ROOT = os.path.dirname(os.path.dirname(os.path.abspath(__file__)))
 PY = 'python3-vt'
 REPLAY_PY = '/venv/bin/python'
 
-def run_worker(prop, unit, both, env):
-    cmd = [PY, '-m', 'pyvc.worker', prop, unit] + (['--both'] if both else [])
+def run_worker(prop, unit, both, env, shard=None):
+    cmd = [PY, '-m', 'pyvc.worker', prop, unit] + (['--both'] if both else []) + (['--shard=%d/%d' % shard] if shard else [])
     p = subprocess.run(cmd, cwd=ROOT, capture_output=True, text=True, env=env)
     for line in reversed(p.stdout.strip().split('\n')):
         line = line.strip()
@@ -68,9 +68,25 @@ def main(argv):
         write_evidence(evidence_path, prop, tier, seed, [], [], time.time() - t0, crash='cannot load contracts')
         return 3
     results = []
-    with cf.ThreadPoolExecutor(max_workers=int(os.environ.get('PYVC_JOBS', '16'))) as ex:
-        futs = {ex.submit(run_worker, prop, u['name'], both, env): u for u in units}
-        for f in cf.as_completed(futs): results.append(f.result())
+    jobs = int(os.environ.get('PYVC_JOBS', '16'))
+    nsh = max(1, min(6, jobs // max(1, len(units))))
+    with cf.ThreadPoolExecutor(max_workers=jobs) as ex:
+        futs = {}
+        for u in units:
+            for i in range(nsh): futs[ex.submit(run_worker, prop, u['name'], both, env, (i, nsh) if nsh > 1 else None)] = u
+        parts = {}
+        for f in cf.as_completed(futs): parts.setdefault(futs[f]['name'], []).append(f.result())
+    for name, rs in parts.items():
+        # merge the shards of one unit
+        base = rs[0]
+        for r in rs[1:]:
+            if r['status'] != 'ok' and base['status'] == 'ok': base['status'] = r['status']; base['detail'] = r.get('detail')
+            base['obligations'] = base.get('obligations', []) + r.get('obligations', [])
+            base['wall_s'] = max(base.get('wall_s', 0), r.get('wall_s', 0))
+        base['obligations'].sort(key=lambda o: o['name'])
+        if base['status'] == 'ok' and base.get('generated') is not None and len(base['obligations']) != base['generated']:
+            base['status'] = 'crash'; base['detail'] = 'shards returned %d of %d obligations' % (len(base['obligations']), base['generated'])
+        results.append(base)
     results.sort(key=lambda r: r['unit'])
 
     # property-specific extra stages (bounded stand-ins, lemma checks done outside the engine)
@@ -100,7 +116,14 @@ def main(argv):
         """obligation was discharged on the unchanged tree and the function's source differs now"""
         bu = baseline['units'].get(r.get('unit'))
         if bu is None: return False
-        return bu.get('sha256') != r.get('sha256') and re.sub(r'/path\d+$', '', obname) in bu.get('discharged', [])
+        if not any_changed: return False
+        base = re.sub(r'/path\d+$', '', obname)
+        # an exception-discipline obligation that did not exist before is a new escaping path of a changed function
+        return base in bu.get('discharged', []) or '/raises:' in base
+
+    # some function under contract of this property differs from the unchanged tree (callers are affected through
+    # callee signatures/defaults, so the question is asked per property, not per unit)
+    any_changed = any(baseline['units'].get(r.get('unit'), {}).get('sha256') not in (None, r.get('sha256')) for r in results)
 
     known = load_known()
     rc = 0
@@ -169,10 +192,33 @@ def main(argv):
         print('  obligation: %s  %s' % (ob['name'], ob.get('note') or ''))
         if nat.get('reproduced'): print('  native: %s' % json.dumps(nat.get('witness', nat.get('detail')), default=str)[:600])
         rc = 1
+    # functions that verified on the unchanged tree but, after a source change, left the verified subset or
+    # cannot be decided: trust only a refutation that replays on the real code
+    changed_undecided = []
+    for r in results:
+        bu = baseline['units'].get(r.get('unit'))
+        if bu is None or bu.get('sha256') == r.get('sha256'): continue
+        if r['status'] in ('unsupported', 'anchor-lost'): changed_undecided.append((r, r['status'] + ': ' + str(r.get('detail'))))
+    if rc == 0 and changed_undecided:
+        r, why = changed_undecided[0]
+        fn = re.sub(r'[^A-Za-z0-9_.-]+', '_', '%s-%s-undecided' % (prop, r['unit']))[:150] + '.json'
+        path = os.path.join(ROOT, 'replays', fn)
+        rep = {'property': prop, 'obligation': '%s/<whole function>' % r['unit'], 'unit': r['unit'], 'file': r.get('file'), 'function': r.get('qual'),
+               'source_sha256': r.get('sha256'), 'note': 'function changed and can no longer be verified: ' + why, 'inputs': None, 'verifier_output': why}
+        json.dump(rep, open(path, 'w'), indent=1, default=str)
+        nat = native_replay(prop, r, {}, path, env)
+        rep['native_replay'] = nat
+        json.dump(rep, open(path, 'w'), indent=1, default=str)
+        if nat.get('reproduced'):
+            print('VIOLATION property=%s replay=%s' % (prop, path))
+            print('  %s changed and left the verified subset (%s); the native replay search found a failing input' % (r['unit'], why[:200]))
+            print('  native: %s' % json.dumps(nat.get('witness', nat.get('detail')), default=str)[:600])
+            reported.add(r['unit']); rc = 1
     for c in crashes:
         print('CHECKER-CRASH unit=%s status=%s %s' % (c.get('unit'), c.get('status'), str(c.get('detail'))[-1500:]))
-    for u in undecided:
-        print('UNDECIDED %s' % (u,))
+    for u in undecided[:40]:
+        print(('UNDECIDED %s' % (u,))[:400])
+    if len(undecided) > 40: print('UNDECIDED ... %d more' % (len(undecided) - 40))
     if rc == 0 and crashes: rc = 3
     if rc == 0 and undecided: rc = 2
     if rc == 0 and total == 0: rc = 3; print('CHECKER-CRASH zero obligations generated')
